@@ -133,6 +133,10 @@ func followUps(tl *c06Tools, kind refcose.Kind, v any, wire []byte) error {
 	switch m := v.(type) {
 	case *cose.Sign1Message:
 		return guard("Sign1Message follow-ups", wire, func() {
+			exerciseHeaders(tl, &m.Headers, m, 0)
+			exerciseHeaders(tl, &m.Headers, *m, 0)
+			countersignAll(tl, m)
+			countersignAll(tl, *m)
 			m.MarshalCBOR()
 			for _, ver := range tl.verifiers {
 				m.Verify(nil, ver)
@@ -164,6 +168,12 @@ func followUps(tl *c06Tools, kind refcose.Kind, v any, wire []byte) error {
 			s1 := (*cose.Sign1Message)(m)
 			exerciseHeaders(tl, &m.Headers, s1, 0)
 			countersignAll(tl, s1)
+			// ... and the value exactly as the decoder handed it out, by pointer and by value (today: an
+			// error, "unsupported target")
+			exerciseHeaders(tl, &m.Headers, m, 0)
+			exerciseHeaders(tl, &m.Headers, *m, 0)
+			countersignAll(tl, m)
+			countersignAll(tl, *m)
 			m.Headers.RawProtected, m.Headers.RawUnprotected = nil, nil
 			m.MarshalCBOR()
 			m.Signature = nil
